@@ -29,11 +29,28 @@ Theorem C20_no_inherited_lazy_slot : inherited_class_slots = [].
 Proof. reflexivity. Qed.
 (* and under exactly that condition every thread obtains, for every schedule of guards and stores and every mix of classes, what it obtains alone *)
 Theorem C20_class_slots_order_independent : forall (T:Type) (mro:nat -> list nat) (body:nat -> option (option T)) (compute:nat -> option T) (U:nat -> Prop),
-  (forall d, NoDup (d :: mro d)) ->
+  (forall d, U d -> NoDup (d :: mro d)) ->
   (forall d c, U d -> U c -> In c (mro d) -> ~ accepted_body T body c -> shadowed_before T mro body d c) ->
   forall sched ds t d v, Forall U ds -> In t (snd (srun T mro body compute sched (empty T, map (Start T) ds))) -> t = Done T d v -> v = expected T mro body compute d.
 Proof. exact slots_order_independent. Qed.
 Print Assumptions C20_class_slots_order_independent.
+(* the premise DECIDED on the library's own class tables (regenerated from the class statements on every run: one table per class-level store
+   site, ≈ 1200 rows in all), and the theorem on them: whatever is computed, however many threads use whichever instantiable classes, under every
+   interleaving of guards and stores, each use returns what it returns alone in a fresh process *)
+Theorem C20_slot_tables_read : tr_slot_tables_ok = true /\ Nat.leb 4 (List.length slot_tables) = true.
+Proof. split; reflexivity. Qed.
+Theorem C20_slot_tables_ok : forallb (fun x => table_ok (snd x)) slot_tables = true.
+Proof. vm_compute. reflexivity. Qed.
+Theorem C20_library_class_slots : forall a k tbl, In (a, k, tbl) slot_tables -> forall (T:Type) (v:T) (compute:nat -> option T) sched ds t d w,
+  Forall (fun c => r_used tbl c = true) ds ->
+  In t (snd (srun T (r_mro tbl) (r_body v tbl) compute sched (empty T, map (Start T) ds))) -> t = Done T d w -> w = expected T (r_mro tbl) (r_body v tbl) compute d.
+Proof.
+  intros a k tbl I T v compute. apply table_slots_order_independent.
+  assert (H := C20_slot_tables_ok). rewrite forallb_forall in H. exact (H _ I).
+Qed.
+Print Assumptions C20_library_class_slots.
+Example C20_slot_tables_nonvacuous : Nat.leb 800 (fold_right (fun x n => List.length (filter (fun r => snd r) (snd x)) + n) 0 slot_tables) = true.
+Proof. vm_compute. reflexivity. Qed.
 (* without it: a class derived from a lazily filled class, used after it, obtains the base's table *)
 Example C20_inherited_slot_refuted : exists sched,
   nth_error (snd (srun (list nat) ex_mro ex_body ex_compute sched (empty (list nat), [Start (list nat) 0; Start (list nat) 1]))) 1 = Some (Done (list nat) 1 (Some [1;2;3;4;5]))
